@@ -2,6 +2,7 @@
   CdiModel.Encode — a raw Spec as the JSON value `encoding/json` (and, with the
   same tags, yaml.v3) produces for it: member names and `omitempty` per
   specs-go/config.go (regenerated fact F3).  nil list entries encode as `null`.
+  Objects are written as lists of fields, each present or omitted.
 -/
 import CdiModel.Json
 import CdiModel.Spec
@@ -13,57 +14,59 @@ def jstrs (l : List Str) : JVal := JVal.mkArr (l.map jstr)
 def jnat (n : Nat) : JVal := .num n 0
 def jint (n : Int) : JVal := .num n 0
 
-/-- a member that is dropped when `omit` holds -/
-def opt (drop : Bool) (k : String) (v : JVal) : List (Str × JVal) := if drop then [] else [(lit k, v)]
-def req (k : String) (v : JVal) : List (Str × JVal) := [(lit k, v)]
-def optVal {α} (o : Option α) (k : String) (f : α → JVal) : List (Str × JVal) :=
-  match o with
-  | some x => [(lit k, f x)]
-  | none => []
+/-- a struct field: member name and its value, or `none` when `omitempty` drops it -/
+abbrev Field := Str × Option JVal
+
+def fReq (k : String) (v : JVal) : Field := (lit k, some v)
+def fOpt (drop : Bool) (k : String) (v : JVal) : Field := (lit k, if drop then none else some v)
+def fOptVal {α} (o : Option α) (k : String) (f : α → JVal) : Field := (lit k, o.map f)
+
+def present (fs : List Field) : List (Str × JVal) := fs.filterMap (fun f => f.2.map (fun v => (f.1, v)))
+def mkObjF (fs : List Field) : JVal := JVal.mkObj (present fs)
 
 def encNode (d : DeviceNode) : JVal :=
-  JVal.mkObj (req "path" (jstr d.path) ++ opt (d.hostPath = []) "hostPath" (jstr d.hostPath) ++
-    opt (d.type = []) "type" (jstr d.type) ++ opt (d.major = 0) "major" (jint d.major) ++
-    opt (d.minor = 0) "minor" (jint d.minor) ++ optVal d.fileMode "fileMode" jnat ++
-    opt (d.permissions = []) "permissions" (jstr d.permissions) ++ optVal d.uid "uid" jnat ++ optVal d.gid "gid" jnat)
+  mkObjF [fReq "path" (jstr d.path), fOpt (d.hostPath = []) "hostPath" (jstr d.hostPath),
+    fOpt (d.type = []) "type" (jstr d.type), fOpt (d.major = 0) "major" (jint d.major),
+    fOpt (d.minor = 0) "minor" (jint d.minor), fOptVal d.fileMode "fileMode" jnat,
+    fOpt (d.permissions = []) "permissions" (jstr d.permissions), fOptVal d.uid "uid" jnat, fOptVal d.gid "gid" jnat]
 
 def encMount (m : Mount) : JVal :=
-  JVal.mkObj (req "hostPath" (jstr m.hostPath) ++ req "containerPath" (jstr m.containerPath) ++
-    opt (m.options = []) "options" (jstrs m.options) ++ opt (m.type = []) "type" (jstr m.type))
+  mkObjF [fReq "hostPath" (jstr m.hostPath), fReq "containerPath" (jstr m.containerPath),
+    fOpt (m.options = []) "options" (jstrs m.options), fOpt (m.type = []) "type" (jstr m.type)]
 
 def encHook (h : Hook) : JVal :=
-  JVal.mkObj (req "hookName" (jstr h.hookName) ++ req "path" (jstr h.path) ++
-    opt (h.args = []) "args" (jstrs h.args) ++ opt (h.env = []) "env" (jstrs h.env) ++ optVal h.timeout "timeout" jint)
+  mkObjF [fReq "hookName" (jstr h.hookName), fReq "path" (jstr h.path), fOpt (h.args = []) "args" (jstrs h.args),
+    fOpt (h.env = []) "env" (jstrs h.env), fOptVal h.timeout "timeout" jint]
 
 def encRdt (r : IntelRdt) : JVal :=
-  JVal.mkObj (opt (r.closID = []) "closID" (jstr r.closID) ++ opt (r.l3CacheSchema = []) "l3CacheSchema" (jstr r.l3CacheSchema) ++
-    opt (r.memBwSchema = []) "memBwSchema" (jstr r.memBwSchema) ++ opt (!r.enableCMT) "enableCMT" (.bool true) ++
-    opt (!r.enableMBM) "enableMBM" (.bool true))
+  mkObjF [fOpt (r.closID = []) "closID" (jstr r.closID), fOpt (r.l3CacheSchema = []) "l3CacheSchema" (jstr r.l3CacheSchema),
+    fOpt (r.memBwSchema = []) "memBwSchema" (jstr r.memBwSchema), fOpt (!r.enableCMT) "enableCMT" (.bool true),
+    fOpt (!r.enableMBM) "enableMBM" (.bool true)]
 
 def encOpt {α} (f : α → JVal) : Option α → JVal
   | some x => f x
   | none => .null
 
 def encEdits (e : Edits) : JVal :=
-  JVal.mkObj (opt (e.env = []) "env" (jstrs e.env) ++
-    opt (e.deviceNodes = []) "deviceNodes" (JVal.mkArr (e.deviceNodes.map (encOpt encNode))) ++
-    opt (e.hooks = []) "hooks" (JVal.mkArr (e.hooks.map (encOpt encHook))) ++
-    opt (e.mounts = []) "mounts" (JVal.mkArr (e.mounts.map (encOpt encMount))) ++
-    optVal e.intelRdt "intelRdt" encRdt ++
-    opt (e.additionalGids = []) "additionalGids" (JVal.mkArr (e.additionalGids.map jnat)))
+  mkObjF [fOpt (e.env = []) "env" (jstrs e.env),
+    fOpt (e.deviceNodes = []) "deviceNodes" (JVal.mkArr (e.deviceNodes.map (encOpt encNode))),
+    fOpt (e.hooks = []) "hooks" (JVal.mkArr (e.hooks.map (encOpt encHook))),
+    fOpt (e.mounts = []) "mounts" (JVal.mkArr (e.mounts.map (encOpt encMount))),
+    fOptVal e.intelRdt "intelRdt" encRdt,
+    fOpt (e.additionalGids = []) "additionalGids" (JVal.mkArr (e.additionalGids.map jnat))]
 
 def encAnnotations (a : List (Str × Str)) : JVal := JVal.mkObj (a.map (fun kv => (kv.1, jstr kv.2)))
 
 def encDevice (d : Device) : JVal :=
-  JVal.mkObj (req "name" (jstr d.name) ++ opt (d.annotations = []) "annotations" (encAnnotations d.annotations) ++
-    req "containerEdits" (encEdits d.edits))
+  mkObjF [fReq "name" (jstr d.name), fOpt (d.annotations = []) "annotations" (encAnnotations d.annotations),
+    fReq "containerEdits" (encEdits d.edits)]
 
 /-- `json.Marshal(spec)` as a value (`devices` of a nil slice would be `null`; a
 well-formed Spec has at least one device) -/
 def encodeSpec (s : Spec) : JVal :=
-  JVal.mkObj (req "cdiVersion" (jstr s.version) ++ req "kind" (jstr s.kind) ++
-    opt (s.annotations = []) "annotations" (encAnnotations s.annotations) ++
-    req "devices" (if s.devices = [] then .null else JVal.mkArr (s.devices.map encDevice)) ++
-    req "containerEdits" (encEdits s.edits))
+  mkObjF [fReq "cdiVersion" (jstr s.version), fReq "kind" (jstr s.kind),
+    fOpt (s.annotations = []) "annotations" (encAnnotations s.annotations),
+    fReq "devices" (if s.devices = [] then .null else JVal.mkArr (s.devices.map encDevice)),
+    fReq "containerEdits" (encEdits s.edits)]
 
 end Cdi.Encode
